@@ -58,6 +58,13 @@ def traces():
             xf = [{"kind": "renumber", "family": fam, "mode": mode, "seed": 3} for fam in ("charts", "themes", "notes", "media", "embeddings")]
             out.append(T("renumbered-families-then-allocate-%s-%s" % (deck, mode), [{"deck": deck, "xform": xf}],
                          [{"op": "add_slide", "layout": 1}] + alloc + [ck, {"op": "restart"}] + alloc[:3] + [ck, {"op": "restart"}]))
+    # a slide taken out of p:sldIdLst whose relationship and part stay behind, at every position: read, save, add slides, save
+    for deck, n in (("f-sld-slides.pptx", 3), ("f-shp-shapes.pptx", 2), ("t-test_slides.pptx", 1), ("f-prs-notes.pptx", 2)):
+        for k in range(n):
+            for pre in ([], [ck], [{"op": "observe"}]):
+                out.append(T("unlisted-slide-%s-%d-%d" % (deck, k, len(pre) + (1 if pre and pre[0].get("op") == "observe" else 0)),
+                             [{"deck": deck, "xform": [{"kind": "unlist_slide", "k": k}]}],
+                             pre + [{"op": "observe"}, ck, {"op": "add_slide", "layout": 0}, ck, {"op": "add_slide", "layout": 0}, ck, {"op": "restart"}, {"op": "observe"}, ck]))
     # non-contiguous / out-of-order slide part names, then additions (next slide partname must not collide)
     for deck in ("f-sld-slides.pptx", "t-test_slides.pptx", "f-prs-add-slide.pptx", "f-shp-shapes.pptx"):
         for mode in ("reverse", "rotate", "gaps", "shuffle", "lastfits", "firstbig", "midnext", "midnext2"):
